@@ -289,7 +289,17 @@ def _child(case, ex, workdir, wfd):
                 except BaseException as e:  # noqa: BLE001
                     rb[n] = {"ok": False, "type": type(e).__name__, "msg": str(e)[:200]}
         outcome["readback"] = rb
+        # what interpreter shutdown would do in the real CLI process: drop the program's objects, then flush whatever
+        # file objects are still open (this process leaves through os._exit, which would lose their buffers)
+        prog = args = result = None  # noqa: F841
         gc.collect()
+        import io
+        for o in gc.get_objects():
+            try:
+                if isinstance(o, io.IOBase) and not o.closed and o.writable() and getattr(o, "name", None) not in (1, 2, "<stdout>", "<stderr>"):
+                    o.flush()
+            except Exception:  # noqa: BLE001
+                pass
     except BaseException as e:  # noqa: BLE001
         outcome = {"status": "harness", "exc": {"type": type(e).__name__, "msg": str(e)[:500],
                                                  "tb": traceback.format_exc()[-3000:]}}
